@@ -216,9 +216,14 @@ def nextCorr : CM σ Int := fun w =>
   let (st, c) := w.client.st.nextCorr
   ({ w with client := { w.client with st := st } }, .ok c)
 
-/-- `Connections::get_conn` (idle time-outs aside): pooled, or newly connected -/
+/-- `Connections::get_conn`: pooled (re-established when the idle time-out is zero, i.e. always reached), or newly connected.
+    Idle time-outs are modelled at their two extremes only: 0 = reconnect on every use, anything else = never. -/
 def getConn (env : Env σ) (host : Bytes) : CM σ Unit := fun w =>
-  if host ∈ w.client.conns then (w, .ok ())
+  if host ∈ w.client.conns then
+    if w.client.cfg.idleTimeoutMs = 0 then
+      let (wd, ok) := env.connect w.world host
+      if ok then ({ w with world := wd }, .ok ()) else ({ w with world := wd }, .err .io)
+    else (w, .ok ())
   else
     let (wd, ok) := env.connect w.world host
     if ok then ({ world := wd, client := { w.client with conns := w.client.conns ++ [host] } }, .ok ())
@@ -498,6 +503,9 @@ def coordinatorStep (env : Env σ) (group : Bytes) (req : GroupCoordinatorReques
   match env.pick w.world w.client.conns with
   | none => M.panic "client/mod.rs:1489 expect available connection"
   | some host => do
+    -- `get_conn_any`: with a zero idle time-out the pooled connection is re-established first
+    if w.client.cfg.idleTimeoutMs = 0 then
+      (fun w => let (wd, _) := env.connect w.world host; ({ w with world := wd }, .ok ()))
     sendRequest env host req.encode
     let b ← recvReply env host
     let r ← decodeWith rGroupCoordinatorResponse b
